@@ -508,8 +508,8 @@ func (e *env) runEnc(id, tier string) {
 		// boundaries of any power-of-two size with the usual nonce/tag overheads), a random sample of
 		// other lengths, and byte flips near those boundaries
 		sizes := []int{65537, 150000, 196613}
-		if bigTamperDone && tier != "thorough" {
-			sizes = nil // once per run in the quick tier
+		if bigTamperDone {
+			sizes = nil // once per run (more random lengths in the thorough tier)
 		}
 		bigTamperDone = true
 		for _, size := range sizes {
@@ -585,7 +585,7 @@ func (e *env) runEnc(id, tier string) {
 		}
 	}
 	// nonces under concurrency: overlapping writes of one value must all produce different files
-	if !nonceRunDone || tier == "thorough" {
+	if !nonceRunDone {
 		nonceRunDone = true
 		writers, per := 8, 300
 		if tier == "thorough" {
